@@ -117,10 +117,12 @@ func (rs *ResourceSubscription) Unsubscribe(sub Subscriber) {
 			// The subscriber may already have been released by a delete
 			// event or a failed get request.
 			if _, ok := rs.subs[sub]; !ok {
+				verifNote("cacheUnsub", "name", rs.e.ResourceName, "query", rs.query, "removed", false, "subs", len(rs.subs))
 				return
 			}
 			delete(rs.subs, sub)
 		}
+		verifNote("cacheUnsub", "name", rs.e.ResourceName, "query", rs.query, "removed", true, "subs", len(rs.subs))
 
 		// Directly unregister unsubscribed queries
 		if rs.query != "" && len(rs.subs) == 0 {
@@ -303,6 +305,7 @@ func (rs *ResourceSubscription) handleEventDelete(r *ResourceEvent) {
 	c := int64(len(subs))
 	rs.subs = nil
 	rs.unregister()
+	verifNote("cacheDelete", "name", rs.e.ResourceName, "query", rs.query, "subs", c)
 	rs.e.removeCount(c)
 
 	rs.e.mu.Unlock()
@@ -381,6 +384,7 @@ func (rs *ResourceSubscription) processGetResponse(payload []byte, err error) (n
 		c := int64(len(sublist))
 		rs.subs = nil
 		rs.unregister()
+		verifNote("cacheGetErr", "name", rs.e.ResourceName, "query", rs.query, "subs", c)
 
 		rs.e.removeCount(c)
 		nrs = rs
